@@ -204,7 +204,8 @@ def build_tree(cfg, mols, noise, missing_guard):
     toptext, flattext = "".join(top), "".join(flat)
     if noise:
         toptext = add_noise(toptext)
-        files = {k: add_noise(v) for k, v in files.items()}
+        # ... and the included files end without a final newline (as a script writing "\n".join(lines) leaves them)
+        files = {k: add_noise(v).rstrip("\n") for k, v in files.items()}
     files["sys.top"] = toptext
     return files, flattext, exp
 
